@@ -133,6 +133,7 @@ def analyse(R, runner, trace, tag):
                     "refresh_not_two_least": "the real RibEntry.refresh (through ribUpdate/Set) did not select the two least (cost, next-hop hash) pairs on an entry with ties",
                     "refresh_unstable": "re-delivering an UNCHANGED advertisement to the real router reported a change / flipped a next hop among tied costs: the result of refresh depends on the Go map iteration order (ties are not broken the same way every time; the exchange cannot come to rest)",
                     "no_quiescence_proto": "the real routers running their own Start() loops kept exchanging advertisements without end on a stable topology (event budget of the simulated network exhausted): no fixed point within a bounded number of exchanges",
+                    "fetch_not_retried": "an advertisement fetch of the real router failed (NACK / timeout) and was not re-issued although the neighbour's sequence number is still the latest known: that advertisement is never fetched (later Sync Interests with the same number are 'nothing changed')",
                     "no_quiescence": "the notification-driven schedule of the real routers did not come to rest",
                     "harness": "the harness saw an ill-formed table/advertisement"}.get(which, which)
             rep = dict(case=p[2], detail=detail[:3000], ops=ops[-6000:], trace_line=ln)
